@@ -879,6 +879,8 @@ func (fc *FnCtx) instrWrites(in ssa.Instruction, promoted map[*ssa.Alloc]bool, o
 		if r, ok := x.Iter.(*ssa.Range); ok && !x.IsString && !fc.frameMode {
 			if _, isMap := r.X.Type().Underlying().(*types.Map); isMap {
 				out[compRangeIter] = true // the hidden iteration counter of a range-over-map loop
+				sc, _ := fc.rangeSeenComp(r.X.Type().Underlying().(*types.Map))
+				out[sc] = true
 			}
 		}
 	case ssa.CallInstruction:
